@@ -1,6 +1,7 @@
 #!/usr/bin/env python3
 """developer helper: build + verify one unit, print failures with origins"""
 import sys, os, json
+os.environ.setdefault('VERIF_KEEP_BUILD', '1')
 sys.path.insert(0, os.path.dirname(os.path.abspath(__file__)))
 import runner
 extra = tuple(sys.argv[2:])
